@@ -19,6 +19,9 @@ driver).
 
 from __future__ import annotations
 
+import copy
+import enum
+import errno
 import io
 import itertools
 import math
@@ -58,6 +61,20 @@ RULE = (
     'os.PathLike; the byteorder keyword in every public form (\'little\' / \'big\' / \'native\', Byteorder '
     'members, Byteorder.native(), left out); every file is re-opened with the byte order deduced and given '
     'explicitly (string, enum member). '
+    'The FORM of the arguments (same supplied values, every form the public signatures allow; each class in every '
+    'run): masks on the pixel data (flagging the pixels that hold the minimum / maximum of every written row; every '
+    'pixel; several masks incl. a 0-d one); variances on pixel coordinates and on metadata quantities; pixel data '
+    'without variances (rows without error); pixel data that is a strided view of a larger buffer; the pixel '
+    'dimension named row / range / axis / detector / energy_transfer / _ / x / with a blank; chunk_size, n_dims, '
+    'run ids as numpy integer scalars (int64, int32, intp, uint32), results of np.prod / np.ceil(..).astype(int), '
+    'IntEnum members, int subclasses; strings (title, model strings, byteorder, path) as np.str_, (str, Enum) '
+    'members, str subclasses; np.bool_ flags; every argument by keyword; the returned builder ignored; tuples / '
+    'lists / one-shot iterators for the documented lists / tuples; a BytesIO subclass overriding write, a '
+    'duck-typed os.PathLike, a PurePath; subclasses of the model classes overriding the serialisation hook; repr / '
+    'str / copy / deepcopy of builder and models between the calls; a refused add_pixel_data (bin edges) followed '
+    'by the right call; a create() that fails half-way (stream error, missing directory) followed by a second '
+    'create(); experiment records and instrument read back with the package\'s reader fed into a second build; one '
+    'pixel table of 2^20 + 7 pixels written in three chunks. '
     'distinct = distinct (program set, length, byte order, pixel class, chunk relation, runs class, '
     'mode, string class, target, keyword/dtype/unit/size variant, state of the output path) signatures; the '
     'empty program in native order on a fresh target is the only trivial one'
@@ -79,6 +96,12 @@ ASSUMPTIONS = [
     'exactly the container (open mode "wb"); a second create() of one builder writes what the builder holds '
     'after all calls made so far (a repeated call replaces what the earlier one registered); BytesIO targets '
     'are always handed over empty (what a stream holds before is its owner\'s business)',
+    'argument forms: an int / str subclass instance (IntEnum, (str, Enum) member, numpy integer given as chunk_size '
+    'or run id, np.str_) stands for its value; masks, variances on coordinates and the name of the pixel dimension '
+    'do not change what is written (every pixel is written, a mask removes nothing from the file); forms outside '
+    'the documented types that the builder may refuse with TypeError / ValueError / AttributeError (numpy integer '
+    'as n_dims, np.bool_ flags, one-shot iterators for rows / experiments) are counted as refusals when refused and '
+    'judged like every other file when accepted',
     'sizes are bounded by the memory budget: arrays up to ~4.4e6 elements; the u32 size field of the '
     'allocation table (blocks >= 4 GiB) is not exercised',
 ]
@@ -287,6 +310,8 @@ def choose_rowset(rng, kind):
         pool = [x for x in std + ext if ROW_KIND[x[0]] != 'index']
         k = int(rng.integers(2, len(pool) + 1))
         sel = [pool[i] for i in rng.permutation(len(pool))[:k]]
+    elif kind == 'no_error':
+        sel = [x for x in std if x[0] != 'error']
     elif kind == 'custom_units':
         sel = []
         for nme, u in std:
@@ -483,85 +508,279 @@ def gen_spec(rng, case) -> dict:
     return spec
 
 
-def build_models(S, sc, spec, program):
-    """scipp / scippneutron input objects from the plain spec (inputs, not expectations)."""
+# ---- argument forms: the same values handed over in every form the public signatures allow ----
+# integers (chunk_size, n_dims, run ids): Python int, numpy integer scalars of several widths, results of
+# numpy arithmetic (np.prod, np.ceil(...).astype(int)), IntEnum members, int subclasses
+INT_FORMS = ('np.int64', 'np.int32', 'np.intp', 'np.uint32', 'np.prod', 'ceil_astype', 'IntEnum', 'int_subclass')
+STR_FORMS = ('np.str_', 'str_enum', 'str_subclass')
+MASK_CLASSES = ('extremes', 'all', 'several')
+PIX_DIMS = ('row', 'range', 'axis', 'detector', 'energy_transfer', '_', 'x', 'pixel index')
+# exception types of a refusal (argument forms outside the documented types may be refused)
+REFUSAL = (TypeError, ValueError, AttributeError)
+
+
+class MyInt(int):
+    """An int subclass (stands for any user-defined integer type)."""
+
+
+class MyStr(str):
+    """A str subclass."""
+
+    __slots__ = ()
+
+
+def as_int(form, v):
+    """The integer ``v`` in the given form (None: plain Python int)."""
+    v = int(v)
+    if form in (None, 'int'):
+        return v
+    if form == 'np.prod':
+        return np.prod(np.array([v, 1], dtype=np.int64))
+    if form == 'ceil_astype':
+        return np.ceil(v - 0.5).astype(int)
+    if form == 'IntEnum':
+        return enum.IntEnum('Count', {'value_': v}).value_
+    if form == 'int_subclass':
+        return MyInt(v)
+    if form.startswith('np.'):
+        return getattr(np, form[3:])(v)
+    raise ValueError(form)
+
+
+def as_str(form, s):
+    """The string ``s`` in the given form (None: plain str)."""
+    if form in (None, 'str'):
+        return s
+    if form == 'np.str_':
+        return np.str_(s)
+    if form == 'str_enum':
+        return enum.Enum('Text', {'value_': s}, type=str).value_
+    if form == 'str_subclass':
+        return MyStr(s)
+    raise ValueError(form)
+
+
+class CountingBytesIO(io.BytesIO):
+    """A BytesIO subclass that overrides ``write`` (the writer must go through it): counts the
+    calls and, when armed, fails ONE write with ENOSPC (a create() that raises half-way; the
+    caller empties the stream and calls create() again)."""
+
+    def __init__(self, *a, **kw):
+        super().__init__(*a, **kw)
+        self.n_writes = 0
+        self.fail_at = None
+
+    def write(self, b):
+        self.n_writes += 1
+        if self.fail_at is not None and self.n_writes >= self.fail_at:
+            self.fail_at = None
+            raise OSError(errno.ENOSPC, 'No space left on device (injected by the harness)')
+        return super().write(b)
+
+
+class FsPath:
+    """A duck-typed os.PathLike (only ``__fspath__``)."""
+
+    def __init__(self, p):
+        self._p = p
+
+    def __fspath__(self):
+        return self._p
+
+    def __repr__(self):
+        return f'FsPath({self._p!r})'
+
+
+def forms_of(case):
+    return (case or {}).get('forms') or {}
+
+
+def forms_class(case):
+    f = forms_of(case)
+    return '+'.join(f'{k}={f[k]}' for k in sorted(f)) or '-'
+
+
+def mask_arrays(kind, px, n, vseed):
+    """name -> bool values of the masks of a mask class.  'extremes': the pixels holding the
+    minimum and the maximum of every written row (signal, variances, coordinates) are flagged;
+    'all': every pixel; 'several': a random mask, a mask that flags nothing and a 0-d mask."""
+    if kind == 'extremes':
+        m = np.zeros(n, dtype=bool)
+        if n:
+            for name in px['row_names']:
+                v = np.asarray(px['rows'][name]['values'])
+                m[int(np.argmin(v))] = True
+                m[int(np.argmax(v))] = True
+        return {'hot': m}
+    if kind == 'all':
+        return {'bad': np.ones(n, dtype=bool)}
+    r = np.random.Generator(np.random.PCG64([*vseed, 31]))
+    return {'random': r.random(n) < 0.5, 'nothing': np.zeros(n, dtype=bool), 'zero_d': np.bool_(True)}
+
+
+_SUBCLASSES = {}
+
+
+def model_subclasses(S):
+    """Subclasses of the documented model classes that override the serialisation hook the
+    builder calls (delegating to the base class; the calls are counted)."""
+    if not _SUBCLASSES:
+        calls = {'n': 0}
+
+        def make(base):
+            def _serialize_to_dict(self):
+                calls['n'] += 1
+                return dict(base._serialize_to_dict(self))
+            return type('Sub' + base.__name__, (base,), {'_serialize_to_dict': _serialize_to_dict})
+
+        for k in ('SqwIXExperiment', 'SqwIXNullInstrument', 'SqwIXSource', 'SqwIXSample', 'SqwDndMetadata',
+                  'SqwLineAxes', 'SqwLineProj'):
+            _SUBCLASSES[k] = make(getattr(S, k))
+        _SUBCLASSES['calls'] = calls
+    return _SUBCLASSES
+
+
+def build_models(S, sc, spec, program, case=None):
+    """scipp / scippneutron input objects from the plain spec (inputs, not expectations).
+
+    ``case['forms']`` selects the FORM in which the same supplied values are handed over: masks
+    on the pixel data, variances on coordinates / metadata quantities, the name of the pixel
+    dimension, pixel data that is a strided view of a larger array, data without variances,
+    numpy / enum / subclass stand-ins for the documented int / bool / str arguments, tuples
+    where lists are documented, subclasses of the model classes."""
     m = {}
+    F = forms_of(case)
+    mvar = bool(F.get('meta_variances'))
+    sform = F.get('str_as')
+    K = model_subclasses(S) if F.get('model_subclass') else None
+
+    def cls(name):
+        return K[name] if K else getattr(S, name)
+
+    def st(x):
+        return as_str(sform, x)
+
+    def seq(xs):
+        return tuple(xs) if F.get('lists_as') == 'tuple' else list(xs)
+
+    def bl(x):
+        return np.bool_(x) if F.get('bool_as') == 'np.bool_' else bool(x)
+
+    def is_float(x):
+        return x.get('dtype', 'float64') in ('float64', 'float32')
 
     def scal(x):
-        return sc.scalar(x['values'], unit=x['unit'], dtype=x.get('dtype', 'float64'))
+        kw = {'variance': abs(float(x['values'])) * 0.25 + 1.0} if mvar and is_float(x) else {}
+        return sc.scalar(x['values'], unit=x['unit'], dtype=x.get('dtype', 'float64'), **kw)
 
     def arr(x, dims):
-        return sc.array(dims=dims, values=x['values'], unit=x['unit'], dtype=x.get('dtype', 'float64'))
+        kw = {'variances': np.abs(np.asarray(x['values'], dtype=np.float64)) * 0.25 + 1.0} \
+            if mvar and is_float(x) else {}
+        return sc.array(dims=dims, values=x['values'], unit=x['unit'], dtype=x.get('dtype', 'float64'), **kw)
 
     if 'pix' in program:
-        rows = spec['pix']['rows']
+        px = spec['pix']
+        rows = px['rows']
+        n = px['n']
+        dim = F.get('pix_dim', 'obs')
+        view = bool(F.get('pix_view'))
+
+        def lay(v, fill):
+            """The values as they are handed over: as they are, or every second element of a
+            buffer twice as long (the other elements hold ``fill``)."""
+            v = np.asarray(v)
+            if not view:
+                return v
+            buf = np.full(2 * len(v) + 1, fill, dtype=v.dtype)
+            buf[1::2] = v
+            return buf
+
+        def junk(r):
+            return np.nan if r['dtype'] in ('float64', 'float32') else -7
+
         sig, err = rows['signal'], rows['error']
-        coords = {
-            k: sc.array(dims=['obs'], values=r['values'], unit=r['unit'], dtype=r['dtype'])
-            for k, r in rows.items() if k not in ('signal', 'error')
-        }
-        data = sc.array(dims=['obs'], values=sig['values'], variances=err['values'],
-                        unit=sig['unit'], dtype=sig['dtype'])
-        m['pix'] = sc.DataArray(data, coords=coords)
+        coords = {}
+        for k, r in rows.items():
+            if k in ('signal', 'error'):
+                continue
+            kw = {}
+            if F.get('coord_variances') and r['dtype'] in ('float64', 'float32'):
+                kw['variances'] = lay(np.ones(n, dtype=r['dtype']), 0.5)
+            coords[k] = sc.array(dims=[dim], values=lay(r['values'], junk(r)), unit=r['unit'], dtype=r['dtype'],
+                                 **kw)
+        kw = {} if F.get('no_variances') else {'variances': lay(err['values'], junk(err))}
+        data = sc.array(dims=[dim], values=lay(sig['values'], junk(sig)), unit=sig['unit'], dtype=sig['dtype'],
+                        **kw)
+        da = sc.DataArray(data, coords=coords)
+        if view:
+            da = da[dim, 1::2].copy(deep=False)      # shares the strided buffers, own coords / masks dicts
+        if F.get('masks'):
+            for name, mk in mask_arrays(F['masks'], px, n, case['vseed']).items():
+                da.masks[name] = sc.scalar(bool(mk)) if np.ndim(mk) == 0 else \
+                    sc.array(dims=[dim], values=mk)
+        m['pix'] = da
         exps = []
         for e in spec['experiments']:
             efix = scal(e['efix']) if e['emode'] == 'direct' else arr(e['efix'], ['detector'])
-            exps.append(S.SqwIXExperiment(
-                run_id=e['run_id'], efix=efix, emode=S.EnergyMode[e['emode']],
+            exps.append(cls('SqwIXExperiment')(
+                run_id=as_int(F.get('run_id_as'), e['run_id']), efix=efix, emode=S.EnergyMode[e['emode']],
                 en=arr(e['en'], e['en']['dims']),
                 psi=scal(e['psi']), u=sc.vector(e['u']), v=sc.vector(e['v']),
                 omega=scal(e['omega']), dpsi=scal(e['dpsi']), gl=scal(e['gl']), gs=scal(e['gs']),
-                filename=e['filename'], filepath=e['filepath']))
+                filename=st(e['filename']), filepath=st(e['filepath'])))
         m['experiments'] = exps
     if 'inst' in program:
         i = spec['instrument']
-        m['inst'] = S.SqwIXNullInstrument(
-            name=i['name'],
-            source=S.SqwIXSource(name=i['source']['name'], target_name=i['source']['target_name'],
-                                 frequency=scal(i['source']['frequency'])))
+        m['inst'] = cls('SqwIXNullInstrument')(
+            name=st(i['name']),
+            source=cls('SqwIXSource')(name=st(i['source']['name']), target_name=st(i['source']['target_name']),
+                                      frequency=scal(i['source']['frequency'])))
     if 'samp' in program:
         s = spec['sample']
-        m['samp'] = S.SqwIXSample(
-            name=s['name'],
+        m['samp'] = cls('SqwIXSample')(
+            name=st(s['name']),
             lattice_spacing=sc.vector(s['alatt']['values'], unit=s['alatt']['unit']),
             lattice_angle=sc.vector(s['angdeg']['values'], unit=s['angdeg']['unit']))
     if 'dnd' in program:
         a, p = spec['dnd']['axes'], spec['dnd']['proj']
-        m['dnd'] = S.SqwDndMetadata(
-            axes=S.SqwLineAxes(
-                title=a['title'], label=list(a['label']),
-                img_scales=[scal(x) for x in a['img_scales']],
-                img_range=[arr(x, ['range']) for x in a['img_range']],
+        m['dnd'] = cls('SqwDndMetadata')(
+            axes=cls('SqwLineAxes')(
+                title=st(a['title']), label=seq(st(x) for x in a['label']),
+                img_scales=seq(scal(x) for x in a['img_scales']),
+                img_range=seq(arr(x, ['range']) for x in a['img_range']),
                 n_bins_all_dims=sc.array(dims=['axis'], values=a['n_bins_all_dims'], unit=None,
                                          dtype=a.get('n_bins_dtype', 'int64')),
                 single_bin_defines_iax=sc.array(dims=['axis'], values=a['single_bin_defines_iax']),
                 dax=sc.array(dims=['axis'], values=a['dax'], unit=None, dtype=a.get('dax_dtype', 'int64')),
-                offset=[scal(x) for x in a['offset']],
-                changes_aspect_ratio=a['changes_aspect_ratio']),
-            proj=S.SqwLineProj(
+                offset=seq(scal(x) for x in a['offset']),
+                changes_aspect_ratio=bl(a['changes_aspect_ratio'])),
+            proj=cls('SqwLineProj')(
                 lattice_spacing=sc.vector(p['alatt']['values'], unit=p['alatt']['unit']),
                 lattice_angle=sc.vector(p['angdeg']['values'], unit=p['angdeg']['unit']),
-                offset=[scal(x) for x in p['offset']],
-                title=p['title'], label=list(p['label']),
+                offset=seq(scal(x) for x in p['offset']),
+                title=st(p['title']), label=seq(st(x) for x in p['label']),
                 u=sc.vector(p['u']['values'], unit=p['u']['unit']),
                 v=sc.vector(p['v']['values'], unit=p['v']['unit']),
                 w=None if p['w'] is None else sc.vector(p['w']['values'], unit=p['w']['unit']),
-                non_orthogonal=p['non_orthogonal'], type=p['type']))
+                non_orthogonal=bl(p['non_orthogonal']), type=st(p['type'])))
     return m
 
 
 BYTEORDER_FORMS = ('str', 'enum', 'omit')
+BYTEORDER_STR_FORMS = {'np_str': 'np.str_', 'str_enum': 'str_enum', 'str_subclass': 'str_subclass'}
 
 
 def byteorder_keyword(S, case):
     """The ``byteorder`` keyword of Sqw.build in the form the case asks for: the strings
-    'little' / 'big' / 'native', the Byteorder enum members (for native: Byteorder.native()),
-    or left out (native only)."""
+    'little' / 'big' / 'native' (as str, np.str_, member of a (str, Enum), str subclass), the
+    Byteorder enum members (for native: Byteorder.native()), or left out (native only)."""
     how, bo = case.get('byteorder_as', 'str'), case['byteorder']
     if how == 'enum':
         return {'byteorder': S.Byteorder.native() if bo == 'native' else S.Byteorder[bo]}
     if how == 'omit' and bo == 'native':
         return {}
+    if how in BYTEORDER_STR_FORMS:
+        return {'byteorder': as_str(BYTEORDER_STR_FORMS[how], bo)}
     return {'byteorder': bo}
 
 
@@ -572,43 +791,177 @@ def byteorder_form(case):
     return f'{how}:{bo}'
 
 
-def run_program(S, case, spec, models, target, session=None):
+def _observe(objs):
+    """Display / copy of objects between two computational calls (must not change anything)."""
+    for o in objs:
+        repr(o)
+        str(o)
+        copy.copy(o)
+
+
+def run_program(S, case, spec, models, target, session=None, ctx=None):
     """Drive the real builder: the program of ``case`` followed by create().  Which public
     keywords are passed (title, byteorder as str / enum / default, rows + row_units, n_dims,
     chunk_size) is part of the case.  A case with ``continue_builder`` goes on with the builder
     object of the previous case of its sequence (``session``): further calls, then a second
-    create() on the same path."""
+    create() on the same path.
+
+    ``case['forms']``: the form of the call itself -- integer keywords as numpy / enum / subclass
+    integers, collections as tuples / lists / one-shot iterators, every argument by keyword, the
+    returned builder ignored (calls on the first object), repr / str / copy / deepcopy of builder
+    and models between the calls, a call that raises followed by the same call done right, a
+    create() that fails half-way followed by a second create(), models read back from the file
+    with the package's reader and fed into a second build."""
+    F = forms_of(case)
+    style = F.get('call_style')
+    observe = bool(F.get('observe'))
     if case.get('continue_builder'):
         b = session['builder']
     else:
         kw = {}
         if case.get('pass_title', True):
-            kw['title'] = spec['title']
+            kw['title'] = as_str(F.get('str_as'), spec['title'])
         kw.update(byteorder_keyword(S, case))
-        b = S.Sqw.build(target, **kw)
+        b = S.Sqw.build(path=target, **kw) if style == 'keyword' else S.Sqw.build(target, **kw)
     if session is not None:
         session['builder'] = b
-    for call in case.get('calls', case['program']):
+    first = b
+    if observe:
+        models = dict(models)
+        _observe([b, *models.values()])
+        for k in ('samp', 'dnd', 'experiments'):
+            if k in models:
+                models[k] = copy.deepcopy(models[k])
+        if 'inst' in models:
+            models['inst'] = copy.copy(models['inst'])
+
+    def pix_kw():
+        kw = {}
+        px = spec['pix']
+        if px['pass_rows']:
+            rows, units = tuple(px['row_names']), tuple(px['row_units'])
+            if F.get('rows_as') == 'list':
+                rows, units = list(rows), list(units)
+            elif F.get('rows_as') == 'iterator':
+                rows = iter(rows)
+            kw['rows'] = rows
+            kw['row_units'] = units
+        if px['n_dims'] is not None:
+            kw['n_dims'] = as_int(F.get('n_dims_as'), px['n_dims'])
+        exps = models['experiments']
+        if F.get('experiments_as') == 'tuple':
+            exps = tuple(exps)
+        elif F.get('experiments_as') == 'iterator':
+            exps = iter(exps)
+        kw['experiments'] = exps
+        return kw
+
+    def add(b, call):
         if call == 'pix':
-            kw = {}
-            px = spec['pix']
-            if px['pass_rows']:
-                kw['rows'] = tuple(px['row_names'])
-                kw['row_units'] = tuple(px['row_units'])
-            if px['n_dims'] is not None:
-                kw['n_dims'] = px['n_dims']
-            b = b.add_pixel_data(models['pix'], experiments=models['experiments'], **kw)
-        elif call == 'inst':
-            b = b.add_default_instrument(models['inst'])
-        elif call == 'samp':
-            b = b.add_default_sample(models['samp'])
-        elif call == 'dnd':
-            b = b.add_empty_dnd_data(models['dnd'])
-        elif call == 'det':
-            b = b.add_empty_detector_params()
-    if case['chunk'] is None:
-        return b.create()
-    return b.create(chunk_size=case['chunk'])
+            if F.get('retry') == 'bin_edges':
+                # a call that is refused (bin-edge coordinate), then the call done right
+                bad = models['pix'].copy(deep=False)
+                name = next((k for k in spec['pix']['row_names'] if k not in ('signal', 'error')), None)
+                if name is not None:
+                    c = models['pix'].coords[name]
+                    import scipp as sc
+                    bad.coords[name] = sc.concat([c, c[c.dim, :1] if len(c) else
+                                                  sc.zeros(dims=[c.dim], shape=[1], unit=c.unit, dtype=c.dtype)],
+                                                 c.dim)
+                    try:
+                        b.add_pixel_data(bad, **pix_kw())
+                    except sc.BinEdgeError:
+                        if ctx is not None:
+                            ctx.count('retry:first_call_refused')
+            if style == 'keyword':
+                return b.add_pixel_data(data=models['pix'], **pix_kw())
+            return b.add_pixel_data(models['pix'], **pix_kw())
+        if call == 'inst':
+            return b.add_default_instrument(instrument=models['inst']) if style == 'keyword' else \
+                b.add_default_instrument(models['inst'])
+        if call == 'samp':
+            return b.add_default_sample(sample=models['samp']) if style == 'keyword' else \
+                b.add_default_sample(models['samp'])
+        if call == 'dnd':
+            return b.add_empty_dnd_data(block=models['dnd']) if style == 'keyword' else \
+                b.add_empty_dnd_data(models['dnd'])
+        return b.add_empty_detector_params()
+
+    def program(b):
+        for call in case.get('calls', case['program']):
+            r = add(b, call)
+            if style != 'unchained':
+                b = r
+            if observe:
+                _observe([first, r])
+        return b
+
+    def create(b):
+        if case['chunk'] is None:
+            return b.create()
+        return b.create(chunk_size=as_int(F.get('chunk_as'), case['chunk']))
+
+    b = program(b)
+    retry = F.get('retry')
+    if retry in ('stream_error', 'missing_dir'):
+        # a create() that raises half-way (the stream fails / the directory does not exist), the
+        # cause is removed, create() is called again on the same builder
+        case['_expect_create_exc'] = OSError
+        if retry == 'stream_error':
+            target.fail_at = target.n_writes + 8     # header: 5 writes, table: 1, then one per block / chunk
+        try:
+            create(b)
+            case['_first_create'] = 'returned'
+        except OSError:
+            case['_first_create'] = 'raised'
+        finally:
+            case.pop('_expect_create_exc', None)
+        if retry == 'stream_error':
+            target.fail_at = None
+            target.seek(0)
+            target.truncate(0)
+        else:
+            os.makedirs(os.path.dirname(os.fspath(target)), exist_ok=True)
+    out = create(b)
+    if observe:
+        _observe([first])
+        if isinstance(target, io.BytesIO):
+            target.seek(0)
+        with S.Sqw.open(target) as q:
+            _observe([q, q.file_header])
+    if F.get('feedback'):
+        # results fed back as inputs: the experiment records and the instrument the package's
+        # reader returns for the file just written go into a second build on the same target
+        fed = dict(models)
+        try:
+            if isinstance(target, io.BytesIO):
+                target.seek(0)
+            with S.Sqw.open(target) as q:
+                names = set(q.data_block_names())
+                if ('experiment_info', 'expdata') in names:
+                    fed['experiments'] = q.read_data_block('experiment_info', 'expdata')
+                if ('experiment_info', 'instruments') in names:
+                    fed['inst'] = q.read_data_block('experiment_info', 'instruments')[0]
+            ok = all(isinstance(e, S.SqwIXExperiment) for e in fed.get('experiments', [])) and \
+                isinstance(fed.get('inst', models.get('inst')), S.SqwIXNullInstrument | None)
+        except Exception:  # noqa: BLE001  (the reader is judged by C13, not here)
+            ok = False
+        if not ok:
+            if ctx is not None:
+                ctx.count('feedback:reader_result_not_usable')
+            return out
+        if isinstance(target, io.BytesIO):
+            target.seek(0)
+            target.truncate(0)
+        models = fed
+        kw = {}
+        if case.get('pass_title', True):
+            kw['title'] = spec['title']
+        kw.update(byteorder_keyword(S, case))
+        b = program(S.Sqw.build(target, **kw))
+        out = create(b)
+        case['_fed_back'] = True
+    return out
 
 
 # ---- sequences on one path: files that already exist when create() runs ----
@@ -649,7 +1002,10 @@ def open_target(case, tmpdir, rng, session):
     of the previous case is still there when create() runs; ``scribble`` replaces it by other
     bytes of the same / a larger / a smaller size / no bytes first; ``link`` reaches it through
     a symbolic link.  What is at the path is recorded in case['existing']."""
+    F = forms_of(case)
     if case['target'] == 'bytesio':
+        if F.get('target_class') == 'bytesio_subclass' or F.get('retry') == 'stream_error':
+            return CountingBytesIO()
         return io.BytesIO()
     if case.get('reuse_path') and session.get('path'):
         path = session['path']
@@ -685,9 +1041,13 @@ def open_target(case, tmpdir, rng, session):
         case['existing'] = {'size': os.path.getsize(path), 'content': content,
                             'other_byteorder': bool(content == 'sqw' and last is not None
                                                     and last != resolved(case['byteorder']))}
-    if case.get('path_as') == 'Path' and not case.get('continue_builder'):
+    if F.get('retry') == 'missing_dir':
+        # the directory of the output file does not exist when create() is called first
+        path = os.path.join(path + '.d', 'inner.sqw')
+    if case.get('path_as', 'str') != 'str' and not case.get('continue_builder'):
         import pathlib
-        path = pathlib.Path(path)
+        how = case['path_as']
+        path = {'Path': pathlib.Path, 'PurePath': pathlib.PurePath, 'FsPath': FsPath, 'np.str_': np.str_}[how](path)
     session['target'] = path
     return path
 
@@ -759,7 +1119,9 @@ def _base_case(**kw):
          'rowset': 'default', 'dtypes': 'mixed', 'meta': 'random', 'n_dims': None, 'pass_title': True,
          'byteorder_as': 'str', 'dnd_bins': None, 'ndet': None, 'n_en': None, 'repeat': 1,
          # state of the output path / further use of the builder (sequences on one path)
-         'path_as': 'str', 'unit_plan': None}
+         'path_as': 'str', 'unit_plan': None,
+         # the form in which the arguments are handed over (see build_models / run_program)
+         'forms': None, 'may_refuse': None}
     c.update(kw)
     if c['byteorder'] != 'native' and c['byteorder_as'] == 'omit':
         c['byteorder_as'] = 'str'
@@ -986,7 +1348,7 @@ def make_items(tier: str, seed: int) -> list[dict]:
     single(pin=N_SHARDS - 2, program=shuffled(['pix', 'inst']), mode='indirect', ndet=ndet, n_en=n_en,
            nruns=1, target=('file', 'bytesio')[seed % 2], byteorder=orders[(seed + 1) % 3], npix=11)
     if thorough:
-        single(pin=N_SHARDS - 3, program=shuffled(['dnd', 'pix', 'samp']),
+        single(pin=N_SHARDS - 4, program=shuffled(['dnd', 'pix', 'samp']),
                dnd_bins=shape_near(rng, HEAVY + (HEAVY >> 4), 'above'), target='file',
                byteorder=orders[(seed + 2) % 3], npix=11)
     # (K) files that ALREADY EXIST at the output path when create() runs: sequences of builds on one
@@ -1060,6 +1422,175 @@ def make_items(tier: str, seed: int) -> list[dict]:
         for tgt in ('bytesio', 'file'):
             single(program=shuffled(CALLS), byteorder=bo, byteorder_as=how, target=tgt,
                    npix=int(rng.choice([0, 3, 50])))
+    # (N) the FORM of the arguments: the same supplied values handed over in every form the public
+    #     signatures allow.  Every class below is part of every run.
+    def formed(forms, k, **kw):
+        base = dict(program=with_pix() if kw.pop('any_program', False) else shuffled(CALLS),
+                    byteorder=orders[(k + seed) % 3], target=('bytesio', 'file')[(k + seed) % 2],
+                    npix=(50, 300, 23, 1000)[k % 4], chunk=(16, 64, 7, 4096, None)[k % 5],
+                    nruns=1 + k % 3, mode=('direct', 'indirect', 'mixed')[k % 3],
+                    values=('forced', 'wide', 'extreme')[k % 3],
+                    forms={kk: v for kk, v in forms.items() if v is not None})
+        base.update(kw)
+        single(**base)
+
+    k = 0
+    # -- masks on the pixel data (per-pixel; the pixel table has no bins / events): every pixel is
+    #    written and pix_metadata.data_range covers every pixel in the file
+    for mk in MASK_CLASSES:
+        for rowset, plan_ in (('default', 'all_f64'), ('superset', 'mixed'), ('custom_units', 'all_f64'),
+                              ('reordered', 'mixed')):
+            formed({'masks': mk}, k, rowset=rowset, dtypes=plan_, npix=(50, 300, 1, 9000)[k % 4],
+                   chunk=(16, None, 1, 1000)[k % 4])
+            k += 1
+    formed({'masks': 'extremes', 'coord_variances': True, 'pix_view': True}, k, npix=200, chunk=33)
+    k += 1
+    formed({'masks': 'extremes'}, k, npix=0, chunk=8)
+    k += 1
+    # -- integer keywords as numpy integer scalars, results of numpy arithmetic, IntEnum, int subclass
+    for form in INT_FORMS:
+        for n, c in ((300, 16), (50, 4096), (1000, 1000)):
+            formed({'chunk_as': form, 'run_id_as': form if form != 'np.uint32' or k % 2 else None}, k, npix=n,
+                   chunk=c, run_ids=('seq', 'random')[k % 2])
+            k += 1
+    for form in ('IntEnum', 'int_subclass'):
+        formed({'n_dims_as': form, 'chunk_as': form, 'run_id_as': form}, k, n_dims=(4, 2, 0)[k % 3], chunk=8)
+        k += 1
+    for form in ('np.int64', 'np.int32'):
+        # an n_dims that is no Python int may be refused (it is written with int.to_bytes)
+        formed({'n_dims_as': form}, k, n_dims=(4, 3)[k % 2], may_refuse='n_dims_as=' + form)
+        k += 1
+    # -- strings as np.str_, member of a (str, Enum), str subclass (title, every string of the models,
+    #    the byteorder keyword, the path); np.bool_ where bool is documented (may be refused)
+    for j, form in enumerate(STR_FORMS):
+        formed({'str_as': form}, k, string={'field': STRING_FIELDS[(j * 4 + seed) % len(STRING_FIELDS)],
+                                             'alphabet': ('ascii', 'mixed', 'cjk')[j], 'length': (13, 40, 255)[j]},
+               byteorder_as=('np_str', 'str_enum', 'str_subclass')[j], byteorder=('little', 'big', 'native')[j])
+        k += 1
+        formed({'str_as': form}, k, string={'field': 'title', 'alphabet': 'latin', 'length': 0 if j == 0 else 7},
+               byteorder_as=('np_str', 'str_enum', 'str_subclass')[(j + 1) % 3],
+               byteorder=('big', 'native', 'little')[j])
+        k += 1
+    formed({}, k, target='file', path_as='np.str_')
+    k += 1
+    formed({'bool_as': 'np.bool_'}, k, program=shuffled(['dnd', 'pix']), may_refuse='bool_as=np.bool_')
+    k += 1
+    # -- variances on coordinates and on the metadata quantities (values must still be right); pixel data
+    #    without variances (rows without 'error'); pixel data that is a strided view; the pixel
+    #    dimension named like dimensions the implementation uses itself
+    for j in range(3):
+        formed({'coord_variances': True}, k, rowset=('default', 'superset', 'custom_units')[j],
+               dtypes=('all_f64', 'mixed', 'all_f32')[j], unit_plan=(None, None, 'up')[j])
+        k += 1
+        formed({'meta_variances': True}, k, meta=('random', 'canonical', 'f32')[j],
+               repeat=2 if j == 1 else 1)
+        k += 1
+    formed({'no_variances': True}, k, rowset='no_error')
+    k += 1
+    formed({'no_variances': True, 'pix_view': True}, k, rowset='no_error', npix=0)
+    k += 1
+    formed({'pix_view': True}, k, dtypes='mixed', rowset='superset')
+    k += 1
+    formed({'pix_view': True}, k, dtypes='all_f64', rowset='default', npix=9000, chunk=1000)
+    k += 1
+    for dname in PIX_DIMS:
+        formed({'pix_dim': dname}, k, mode=('direct', 'indirect')[k % 2])
+        k += 1
+    # -- calling conventions: every argument by keyword; the returned builder ignored; collections as
+    #    tuple / list where list / tuple is documented; one-shot iterators (may be refused)
+    formed({'call_style': 'keyword'}, k)
+    k += 1
+    formed({'call_style': 'keyword'}, k, rowset='reordered', n_dims=3)
+    k += 1
+    formed({'call_style': 'unchained'}, k)
+    k += 1
+    formed({'call_style': 'unchained', 'experiments_as': 'tuple', 'rows_as': 'list', 'lists_as': 'tuple'}, k,
+           rowset='explicit')
+    k += 1
+    formed({'experiments_as': 'tuple', 'lists_as': 'tuple'}, k, rowset='subset')
+    k += 1
+    formed({'rows_as': 'iterator'}, k, rowset='reordered', may_refuse='rows_as=iterator')
+    k += 1
+    formed({'experiments_as': 'iterator'}, k, may_refuse='experiments_as=iterator')
+    k += 1
+    # -- stand-ins for the documented argument classes: a BytesIO subclass that overrides write, a
+    #    duck-typed os.PathLike, a PurePath, subclasses of the model classes that override the
+    #    serialisation hook
+    formed({'target_class': 'bytesio_subclass'}, k, target='bytesio')
+    k += 1
+    formed({'target_class': 'bytesio_subclass'}, k, target='bytesio', npix=9000, chunk=100)
+    k += 1
+    formed({}, k, target='file', path_as='FsPath', path=('plain', 'nonascii')[seed % 2])
+    k += 1
+    formed({}, k, target='file', path_as='PurePath')
+    k += 1
+    formed({'model_subclass': True}, k, mode='mixed', nruns=3)
+    k += 1
+    formed({'model_subclass': True}, k, meta='canonical', byteorder=NON_NATIVE, repeat=2)
+    k += 1
+    # -- second use: display / copy / deepcopy between the calls; a refused call followed by the call
+    #    done right; a create() that fails half-way followed by a second create(); the reader's results
+    #    fed into a second build
+    formed({'observe': True}, k)
+    k += 1
+    formed({'observe': True}, k, meta='canonical', byteorder=NON_NATIVE)
+    k += 1
+    formed({'retry': 'bin_edges'}, k)
+    k += 1
+    formed({'retry': 'bin_edges'}, k, npix=0)
+    k += 1
+    for j in range(2):
+        formed({'retry': 'stream_error'}, k, target='bytesio', npix=(300, 9000)[j], chunk=(16, 1000)[j])
+        k += 1
+        formed({'retry': 'missing_dir'}, k, target='file', path=('plain', 'nonascii')[j])
+        k += 1
+    for j in range(3):
+        formed({'feedback': True}, k, program=shuffled(['pix', 'inst'] + (['dnd', 'det'] if j else [])),
+               mode='direct', meta=('random', 'canonical', 'f32')[j], target=('bytesio', 'file', 'bytesio')[j],
+               byteorder=orders[(j + seed) % 3], nruns=(1, 3, 20)[j])
+        k += 1
+    # -- everything at once
+    formed({'masks': 'several', 'coord_variances': True, 'meta_variances': True, 'pix_dim': 'row',
+            'chunk_as': 'np.int64', 'run_id_as': 'np.int32', 'str_as': 'np.str_', 'call_style': 'keyword',
+            'experiments_as': 'tuple', 'lists_as': 'tuple', 'model_subclass': True, 'observe': True,
+            'target_class': 'bytesio_subclass'}, k, target='bytesio', npix=300, chunk=64,
+           string={'field': 'title', 'alphabet': 'mixed', 'length': 30})
+    k += 1
+    for _ in range(0 if not thorough else 150):
+        r = rng.random(12)
+        forms = {}
+        if r[0] < 0.4:
+            forms['masks'] = MASK_CLASSES[int(rng.integers(0, 3))]
+        if r[1] < 0.4:
+            forms['chunk_as'] = INT_FORMS[int(rng.integers(0, len(INT_FORMS)))]
+        if r[2] < 0.3:
+            forms['run_id_as'] = INT_FORMS[int(rng.integers(0, len(INT_FORMS)))]
+        if r[3] < 0.3:
+            forms['str_as'] = STR_FORMS[int(rng.integers(0, 3))]
+        if r[4] < 0.3:
+            forms['coord_variances'] = True
+        if r[5] < 0.3:
+            forms['meta_variances'] = True
+        if r[6] < 0.3:
+            forms['pix_dim'] = PIX_DIMS[int(rng.integers(0, len(PIX_DIMS)))]
+        if r[7] < 0.3:
+            forms['pix_view'] = True
+        if r[8] < 0.3:
+            forms['call_style'] = ('keyword', 'unchained')[int(rng.integers(0, 2))]
+        if r[9] < 0.2:
+            forms['model_subclass'] = True
+        if r[10] < 0.2:
+            forms['observe'] = True
+        if r[11] < 0.2:
+            forms['lists_as'] = 'tuple'
+        n = int(rng.choice([0, 1, 9, 50, 300, 3000]))
+        formed(forms, k, any_program=True, npix=n, chunk=int(rng.choice([1, 7, 64, 8192, max(n, 1)])),
+               **{kk: v for kk, v in rand_variant(rng).items() if kk != 'byteorder_as'})
+        k += 1
+    # -- one large pixel table of the run (2^20 + 7 pixels, three chunks of 400001): its own shard
+    single(pin=N_SHARDS - 3, program=shuffled(['pix', 'samp']), npix=(1 << 20) + 7, chunk=400001,
+           forms={'chunk_as': 'np.int64', 'masks': 'extremes'}, target=('file', 'bytesio')[seed % 2],
+           byteorder=orders[(seed + 2) % 3], values='wide', nruns=2, dtypes='all_f64')
     for i, it in enumerate(items):
         it['item'] = i
         for j, c in enumerate(it['cases']):
@@ -1192,7 +1723,7 @@ def signature(case, spec=None):
                case.get('meta', 'random'), 'nd=%s' % case.get('n_dims') if has_pix else '-',
                't' if case.get('pass_title', True) else 'no-title', case.get('byteorder_as', 'str'),
                size_class(case), 'x%d' % case.get('repeat', 1), 'rep%d' % case.get('rep', 0),
-               existing_class(case))
+               existing_class(case), forms_class(case))
     return (','.join(sorted(case['program'])), len(case['program']), case['byteorder'], ncls,
             chunk_relation(case, nrows), '1' if r == 1 else '<=4' if r <= 4 else '<20' if r < 20 else '20',
             case['mode'], scls, case['target'] + ':' + case.get('path', 'plain'), variant)
@@ -1202,7 +1733,7 @@ def case_summary(case):
     keys = ('program', 'byteorder', 'npix', 'chunk', 'nruns', 'mode', 'string', 'target', 'path', 'values',
             'run_ids', 'vseed', 'rowset', 'dtypes', 'meta', 'n_dims', 'pass_title', 'byteorder_as', 'dnd_bins',
             'ndet', 'n_en', 'repeat', 'rep', 'rows', 'row_units', 'row_dtypes', 'unit_plan', 'path_as',
-            'continue_builder', 'calls', 'scribble', 'scribble_fill', 'link', 'existing')
+            'continue_builder', 'calls', 'scribble', 'scribble_fill', 'link', 'existing', 'forms', 'may_refuse')
     return {k: case[k] for k in keys if k in case and case[k] is not None}
 
 
@@ -1275,6 +1806,15 @@ def hit_forced(ctx, case, spec=None):
             ctx.hit('second_create_of_builder:existing_' + ex['relation'])
     if case['target'] == 'file' and case.get('path_as', 'str') != 'str':
         ctx.hit('path_as:' + case['path_as'])
+    F = forms_of(case)
+    for k_, v in F.items():
+        ctx.hit(f'form:{k_}={v}')
+    if case.get('_fed_back'):
+        ctx.hit('second_use:reader_results_fed_back')
+    if case.get('_first_create') == 'raised':
+        ctx.hit('second_use:create_again_after_failure:' + F['retry'])
+    if has_pix and n >= 1 << 20:
+        ctx.hit('npix>=2^20')
     if case.get('meta') == 'canonical' and resolved(case['byteorder']) != NATIVE and len(case['program']) >= 3:
         ctx.hit('canonical_objects+non_native_order')
     if case.get('meta') in ('f32', 'int'):
@@ -1312,7 +1852,22 @@ FORCED = ['chunk>npix', 'chunk==npix', 'chunk<npix', 'chunk<rows', 'chunks*ceil(
           'existing_file:sqw:same_size', 'existing_file:garbage:longer', 'existing_file:garbage:shorter',
           'existing_file:garbage:same_size', 'existing_file:other_byteorder', 'existing_file:through_symlink',
           'second_create_of_builder:existing_longer', 'second_create_of_builder:existing_same_size',
-          'second_create_of_builder:existing_shorter', 'path_as:Path']
+          'second_create_of_builder:existing_shorter', 'path_as:Path',
+          # the form of the arguments (section N of make_items)
+          *('form:masks=' + k for k in MASK_CLASSES), *('form:chunk_as=' + k for k in INT_FORMS),
+          *('form:run_id_as=' + k for k in INT_FORMS),
+          *('form:n_dims_as=' + k for k in ('IntEnum', 'int_subclass', 'np.int64', 'np.int32')),
+          *('form:str_as=' + k for k in STR_FORMS), 'form:bool_as=np.bool_',
+          'kw:byteorder_np_str', 'kw:byteorder_str_enum', 'kw:byteorder_str_subclass',
+          'form:coord_variances=True', 'form:meta_variances=True', 'form:no_variances=True', 'rowset:no_error',
+          'form:pix_view=True', *('form:pix_dim=' + k for k in PIX_DIMS),
+          'form:call_style=keyword', 'form:call_style=unchained', 'form:experiments_as=tuple',
+          'form:experiments_as=iterator', 'form:rows_as=list', 'form:rows_as=iterator', 'form:lists_as=tuple',
+          'form:target_class=bytesio_subclass', 'path_as:FsPath', 'path_as:PurePath', 'path_as:np.str_',
+          'form:model_subclass=True', 'form:observe=True', 'form:retry=bin_edges', 'form:retry=stream_error',
+          'form:retry=missing_dir', 'form:feedback=True', 'second_use:reader_results_fed_back',
+          'second_use:create_again_after_failure:stream_error', 'second_use:create_again_after_failure:missing_dir',
+          'npix>=2^20']
 
 
 # ------------------------------------------------------------ writer trace ---
@@ -1735,6 +2290,23 @@ def judge_group(ctx, group_cases, orders_seen):
             return
 
 
+def expected_exception(ctx, case, exc):
+    """A create() that raised where the case allows it: the failure the harness injected (a
+    stream that fails once, a directory that does not exist yet: the second create() is the one
+    that is judged), or the refusal of an argument form outside the documented types (counted,
+    never judged).  Everything else is judged."""
+    if exc is None:
+        return False
+    want = case.get('_expect_create_exc')
+    if want is not None and isinstance(exc, want):
+        ctx.count('injected_failure_of_first_create')
+        return True
+    if case.get('may_refuse') and isinstance(exc, REFUSAL):
+        ctx.count('refusal:' + case['may_refuse'])
+        return True
+    return False
+
+
 # ------------------------------------------------------------------- driver ---
 def requirements(tier):
     return {
@@ -1743,7 +2315,7 @@ def requirements(tier):
                    'perm_groups': 20, 'trace:pix_data_block': 100, 'trace:dnd_data_block': 100,
                    'trace:data_block': 500, 'trace:_deduce_byteorder': 300},
         'forced': FORCED,
-        'counters': {'programs_run': 326},
+        'counters': {'programs_run': 326, 'model_subclass:override_calls': 1, 'retry:first_call_refused': 1},
     }
 
 
@@ -1755,13 +2327,16 @@ def run(shard, ctx):
 
     items = items_of_shard(shard)
     tmpdir = tempfile.mkdtemp(prefix='rv-c12-')
-    state = {'case': None, 'target': None, 'file': None, 'judged': False}
+    state = {'case': None, 'target': None, 'file': None, 'judged': False, 'refused': False}
     deduced = []
     tr = Tracer()
 
     def on_create_return(ev, trace):
         case, target = state['case'], state['target']
         if case is None:
+            return
+        if expected_exception(ctx, case, ev.exc):
+            state['refused'] = state['refused'] or bool(case.get('may_refuse'))
             return
         state['judged'] = True
         try:
@@ -1789,21 +2364,29 @@ def run(shard, ctx):
                     rng = np.random.Generator(np.random.PCG64(case0['vseed']))
                     spec = gen_spec(rng, case0)
                     case0, spec = continue_from(session, case0, spec)
-                    models = build_models(S, sc, spec, case0.get('calls', case0['program']))
+                    models = build_models(S, sc, spec, case0.get('calls', case0['program']), case0)
                     describe_rows(case0, spec)
                     for case in case_reps(case0):
                         target = open_target(case, tmpdir, rng, session)
-                        state.update(case=case, target=target, file=None, judged=False)
+                        state.update(case=case, target=target, file=None, judged=False, refused=False)
                         before = ctx.n_violations
                         try:
-                            run_program(S, case, spec, models, target, session if case.get('reuse_path') else None)
+                            run_program(S, case, spec, models, target, session if case.get('reuse_path') else None,
+                                        ctx)
                         except Exception as e:  # noqa: BLE001  (create: judged by the monitor, PY_UNWIND)
-                            if not state['judged']:
+                            if state['refused']:
+                                pass
+                            elif not state['judged'] and case.get('may_refuse') and isinstance(e, REFUSAL):
+                                ctx.count('refusal:' + case['may_refuse'])
+                                state['refused'] = True
+                            elif not state['judged']:
                                 # a valid builder program did not get as far as create()
                                 ctx.violation('builder_raised', f'{type(e).__name__}: {str(e)[:200]} (before create)',
                                               case_summary(case), exception=type(e).__name__)
                         f = state['file']
-                        if state['judged']:
+                        if state['refused']:
+                            pass
+                        elif state['judged']:
                             judge_reopen(ctx, S, case, target, f, deduced)
                         else:
                             ctx.count('create_not_observed')
@@ -1831,6 +2414,8 @@ def run(shard, ctx):
                     judge_group(ctx, it['cases'], orders_seen)
     finally:
         shutil.rmtree(tmpdir, ignore_errors=True)
+    if _SUBCLASSES:
+        ctx.count('model_subclass:override_calls', _SUBCLASSES['calls']['n'])
 
 
 # ------------------------------------------------------------ known findings ---
